@@ -35,11 +35,16 @@ class BuiltinMixin:
             if conc is not None:
                 return None if not symbolic else self._unsup("mixed concrete/symbolic generators")
             symbolic = True
-            n, elem = self.iter_view(itv, s)
             i = z3.FreshConst(z3.IntSort(), "qi")
             bound.append(i)
-            guards.append(z3.And(i >= 0, i < n))
-            self.bind_target(g.target, elem(i), env_over)
+            if isinstance(itv, VRange):
+                # bind the variable itself (no lo + i terms: they defeat E-matching on select indices)
+                guards.append(z3.And(i >= itv.lo, i < itv.hi))
+                self.bind_target(g.target, VInt(i), env_over)
+            else:
+                n, elem = self.iter_view(itv, s)
+                guards.append(z3.And(i >= 0, i < n))
+                self.bind_target(g.target, elem(i), env_over)
             for f in g.ifs:
                 saved = dict(s.env)
                 s.env.update(env_over)
@@ -558,6 +563,30 @@ class BuiltinMixin:
 
     def bi_dict_keys(self, args, kw, st, cx, node):
         return [(st, dict_keys_list(args[0]))]
+
+    def bi_any_value(self, args, kw, st, cx, node):
+        "ghost: an arbitrary value of the given sort"
+        so = args[0].what
+        v = fresh(so, "ghost")
+        self.assume_wf(st, v, nullable=True)
+        return [(st, v)]
+
+    def bi_store(self, args, kw, st, cx, node):
+        m, k, v = args
+        return [(st, VMap(z3.Store(m.t, term_of(k, m.sort.k), term_of(v, m.sort.v)), m.sort))]
+
+    def bi_card(self, args, kw, st, cx, node):
+        return [(st, VInt(args[0].sort.card(args[0].t)))]
+
+    def bi_pigeonhole(self, args, kw, st, cx, node):
+        """trusted lemma (Lean: Finset.eq_of_subset_of_card_le, /verif/lemmas/Sets.lean):
+        a finite set s with s subset of keys(d) and |s| >= |keys(d)| equals keys(d)"""
+        s_, d = args
+        k = z3.FreshConst(d.sort.k.z3(), "ph")
+        sub = z3.ForAll([k], z3.Implies(z3.Select(s_.sort.mem(s_.t), k), d.sort.dom(d.t, k)))
+        sup = z3.ForAll([k], z3.Implies(d.sort.dom(d.t, k), z3.Select(s_.sort.mem(s_.t), k)))
+        self.used_axioms.add("lemma:pigeonhole (Lean-checked, transcribed)")
+        return [(st, VBool(z3.Implies(z3.And(sub, s_.sort.card(s_.t) >= d.sort.n(d.t)), sup)))]
 
     def bi_unchanged(self, args, kw, st, cx, node):
         "unchanged('field'[, 'Class']) : the heap field is identical to the pre-state"
